@@ -101,4 +101,55 @@ def IterResult.lines (r : IterResult) : List String :=
       | o :: os => s!"O {i} {o.render}" :: objs (i + 1) os
     evs ++ ["T ok", s!"P {r.exec.path.render}", s!"H {r.exec.threads.render}"] ++ objs 0 r.exec.objs
 
+
+/-! ### views and digests
+
+The *safety view* of an iteration drops everything that belongs to the exploration bookkeeping
+(DPOR clocks and access slots, backtrack marks, preemption counters), so that it can be compared
+between the implementation and a replay of the same decisions on the twin even when the
+exploration itself differs. -/
+
+/-- drop the space-separated tokens that start with one of the given prefixes -/
+def dropTokens (pfx : List String) (line : String) : String :=
+  " ".intercalate ((line.splitOn " ").filter fun t => !pfx.any fun p => t.startsWith p)
+
+def threadsSafety (line : String) : String := dropTokens ["d="] line
+
+def objSafety (line : String) : String :=
+  dropTokens ["la=", "lnl=", "ls=", "lr=", "inc=", "dec=", "insp=", "mod="] line
+
+def ThSt.safetyLetter : ThSt → Char
+  | .disabled => 'D' | .yield => 'Y' | .active => 'A' | _ => 'S'
+
+/-- decisions and enabledness recorded in a path, without marks and counters -/
+def Path.safetyView (p : Path) : String :=
+  " ".intercalate (p.branches.map fun
+    | .sched s => String.ofList (s.threads.map ThSt.safetyLetter)
+    | .load l => "L" ++ ",".intercalate ((l.values.take l.len).map toString) ++ s!"@{l.pos}"
+    | .spur u => if u.spur then "U1" else "U0")
+
+def fnv1a (s : String) : UInt64 :=
+  s.toUTF8.foldl (fun h b => (h ^^^ b.toUInt64) * 0x100000001B3) 0xCBF29CE484222325
+
+def hex64 (x : UInt64) : String :=
+  let digits := "0123456789abcdef".toList
+  String.ofList ((List.range 16).reverse.map fun i =>
+    digits.getD ((x >>> (UInt64.ofNat (4 * i))) &&& 0xF).toNat '0')
+
+/-- record lines of one iteration in digest mode: events, termination, and two hashes -/
+def IterResult.digestLines (start : Path) (r : IterResult) : List String :=
+  let evs := r.events.map Event.render
+  match r.term with
+  | some p => evs ++ [s!"T {p.render}"]
+  | none =>
+    let rec objs (i : Nat) : List Obj → List String
+      | [] => []
+      | o :: os => s!"O {i} {o.render}" :: objs (i + 1) os
+    let full := [s!"S {start.render}", s!"P {r.exec.path.render}", s!"H {r.exec.threads.render}"]
+      ++ objs 0 r.exec.objs
+    let safe := [s!"V {r.exec.path.safetyView}", threadsSafety s!"H {r.exec.threads.render}"]
+      ++ (objs 0 r.exec.objs).map objSafety
+    evs ++ ["T ok", s!"XS {hex64 (fnv1a ("\n".intercalate safe))}",
+            s!"XE {hex64 (fnv1a ("\n".intercalate full))}"]
+
 end LoomVerif
